@@ -48,15 +48,9 @@ def _child(case, seed, root):
     from aw_datastore.storages import PeeweeStorage, SqliteStorage
     ddir = get_data_dir("aw-server")
     assert ddir.startswith(root), ddir
-    names = {}
-    unknown = [0]
-
     def vname(e):
-        k = own.canon_event(e)
-        if k not in names:
-            unknown[0] += 1
-            names[k] = "u%d" % unknown[0]
-        return names[k]
+        # a name of the event's value that is the same in every process: the legacy stores are built in processes of their own
+        return "h" + hashlib.sha1(repr(own.canon_event(e)).encode()).hexdigest()[:16]
 
     def mname(m):
         try:
@@ -105,25 +99,62 @@ def _child(case, seed, root):
                         "evs": [{"id": e.id if isinstance(e.id, int) else -2, "v": vname(e)} for e in evs]})
         return out
 
-    legacy, lpath = [], None
+    def build_forked(testing, buckets):
+        """the legacy store is written by a process of its own (as the old server did), so that nothing it leaves in
+        module-level state is shared with the process that migrates"""
+        r, w = os.pipe()
+        pid = os.fork()
+        if pid == 0:
+            try:
+                os.close(r)
+                try:
+                    res = build(testing, buckets)
+                except BaseException:
+                    import traceback
+                    res = {"error": traceback.format_exc()}
+                os.write(w, json.dumps(res).encode())
+            finally:
+                os._exit(0)
+        os.close(w)
+        buf = b""
+        while True:
+            c = os.read(r, 1 << 20)
+            if not c:
+                break
+            buf += c
+        os.close(r)
+        os.waitpid(pid, 0)
+        res = json.loads(buf) if buf else {"error": "no output"}
+        if isinstance(res, dict):
+            raise RuntimeError("building the legacy store failed: %s" % res["error"])
+        return res[0], res[1]
+
+    other_buckets = [dict(case["buckets"][0], id="other-profile-bucket")] if case["buckets"] else \
+        [{"id": "other-profile-bucket", "type": "t", "client": "c", "hostname": "h", "name": None, "data": None, "n": 2, "delete": [], "dups": False}]
+    legacy = {}      # profile (testing flag) -> (dump, path)
     if case["has_legacy"]:
-        legacy, lpath = build(case["profile"], case["buckets"])
+        legacy[case["profile"]] = build_forked(case["profile"], case["buckets"])
     if case["other_profile"]:
-        build(not case["profile"], [dict(case["buckets"][0], id="other-profile-bucket")] if case["buckets"] else
-              [{"id": "other-profile-bucket", "type": "t", "client": "c", "hostname": "h", "name": None, "data": None, "n": 2, "delete": [], "dups": False}])
-    before = sha(lpath) if lpath else "-"
-    out = "ok"
-    new = []
-    try:
-        ds2 = Datastore(SqliteStorage, testing=case["profile"])
-        new = dump_ds(ds2)
-        ds2.storage_strategy.conn.close()
-    except Exception as e:
-        out = type(e).__name__
-    after = sha(lpath) if lpath else "-"
-    # intern value names so that both dumps use the same ones: rename to v1.. by first appearance in legacy
-    return {"profile": "testing" if case["profile"] else "normal", "has_legacy": case["has_legacy"], "out": out, "legacy": legacy, "new": new,
-            "bytes_same": before == after}
+        legacy[not case["profile"]] = build_forked(not case["profile"], other_buckets)
+
+    def first_open(testing):
+        dump, lpath = legacy.get(testing, ([], None))
+        before = sha(lpath) if lpath else "-"
+        out, new = "ok", []
+        try:
+            ds2 = Datastore(SqliteStorage, testing=testing)
+            new = dump_ds(ds2)
+            ds2.storage_strategy.conn.close()
+        except Exception as e:
+            out = type(e).__name__
+        after = sha(lpath) if lpath else "-"
+        return {"profile": "testing" if testing else "normal", "has_legacy": lpath is not None, "out": out, "legacy": dump, "new": new, "bytes_same": before == after}
+
+    recs = [first_open(case["profile"])]
+    if case["other_profile"] and case.get("both", True):
+        # the same process then creates the other profile's default store for the first time, beside its own legacy file
+        recs.append(first_open(not case["profile"]))
+    return recs
 
 
 def run_case(args):
@@ -153,6 +184,6 @@ def run_case(args):
     os.waitpid(pid, 0)
     shutil.rmtree(root, ignore_errors=True)
     res = json.loads(buf) if buf else {"error": "no output"}
-    if "error" in res:
-        raise RuntimeError("migration case failed in the harness: %s" % res["error"])
+    if isinstance(res, dict):
+        raise RuntimeError("migration case failed in the harness: %s" % res.get("error"))
     return res
